@@ -24,4 +24,11 @@ def harnesses(ctx, tier):
                   timeout=1500, mem_gb=24,
                   desc="yr_arena_load_stream on arbitrary file bytes; case: " + what, bounds="file <= %d bytes (length symbolic = every truncation), <= 2 buffers" % F,
                   functions=["yr_arena_load_stream", "yr_arena_create", "yr_arena_allocate_memory", "yr_arena_make_ptr_relocatable", "yr_arena_ref_to_ptr", "yr_arena_release", "yr_stream_read"]))
+    B = 100
+    hs.append(Harness(name="H2_rules_from_any_arena", src="c17/load.c", defines=["-DVF_MODE=3", "-DVF_B=%d" % B, "-DVF_F=8"],
+              unwind=18, flags=["--unwindset", "vf_fill.0:%d,yr_rules_from_arena.0:4" % (B + 1)],
+              timeout=900, mem_gb=16,
+              desc="yr_rules_from_arena on ANY arena yr_arena_load_stream can return (0..16 buffers, each empty or <= %d symbolic bytes)" % B,
+              bounds="buffers <= %d bytes: room for 2 rules / 2 strings / 3 externals; num_rules etc. arbitrary 32-bit" % B,
+              functions=["yr_rules_from_arena", "yr_arena_get_ptr", "yr_arena_acquire"]))
     return hs
